@@ -195,3 +195,401 @@ Proof.
            apply Nat.ltb_ge in E1. assert (Hmk : m = k) by lia.
            apply Nat.eqb_neq in E0. rewrite Hmk, Nat.mod_same in E0 by lia. contradiction.
 Qed.
+
+Lemma zget_firstn l c i : 0 <= i < Z.of_nat c -> zget (firstn c l) i = zget l i.
+Proof. intro H. unfold zget. apply nth_firstn'. lia. Qed.
+
+Lemma zget_app a b t : 0 <= t ->
+  zget (a ++ b) t = if t <? Z.of_nat (length a) then zget a t else zget b (t - Z.of_nat (length a)).
+Proof.
+  intro H. unfold zget. destruct (t <? Z.of_nat (length a)) eqn:E.
+  - apply app_nth1. lia.
+  - rewrite app_nth2 by lia. f_equal. lia.
+Qed.
+
+Lemma zget_skipn l c t : 0 <= t -> zget (skipn c l) t = zget l (Z.of_nat c + t).
+Proof. intro H. unfold zget. rewrite nth_skipn. f_equal. lia. Qed.
+
+Ltac ifs' := repeat match goal with
+  | |- context[if ?b then _ else _] => destruct b eqn:?
+  end.
+
+(* ------------------------------------------------------------------ the model *)
+Section NumModel.
+  Variable x : list float.
+  Variable wsort : list Z.
+  Variable k : Z.
+  Hypothesis Hk : 1 <= k.
+  Let n := Z.of_nat (length wsort).
+  Hypothesis Hn : 1 <= n.
+  Let N := (n - 1) / k + 1.
+  Variables hist rev0 : list Z.
+  Hypothesis Hch : chist (fun j => j / k) N (zseq 0 (length wsort)) = (hist, rev0).
+
+  Lemma N_bounds : 1 <= N /\ (N - 1) * k < n /\ n <= N * k.
+  Proof. unfold N. nia. Qed.
+
+  Lemma pass_facts :
+    Z.of_nat (length hist) = N
+    /\ Z.of_nat (length rev0) = n + N + 1
+    /\ (forall p, 0 <= p < n -> zget rev0 (N + 1 + p) = p)
+    /\ (forall i, 0 <= i <= N -> zget rev0 i = N + 1 + Z.min (i * k) n)
+    /\ (forall i, 0 <= i < N -> zget hist i = Z.min n ((i + 1) * k) - i * k).
+  Proof.
+    pose proof N_bounds as NB.
+    assert (Hch' : chist (fun j => j / k) ((n - 1) / k + 1) (zseq 0 (Z.to_nat n)) = (hist, rev0)).
+    { unfold n. rewrite Nat2Z.id. exact Hch. }
+    destruct (nperbin_pass_slices k n hist rev0 Hk Hn Hch') as [HL [HR [HS [HE HP]]]].
+    fold N in HL, HR, HS, HE, HP.
+    assert (Hdata : forall p, 0 <= p < n -> zget rev0 (N + 1 + p) = p).
+    { intros p Hp. replace (N + 1 + p) with (Z.of_nat (Z.to_nat (N + 1)) + p) by lia.
+      rewrite <- zget_skipn by lia. rewrite HS. rewrite zget_zseq by lia. lia. }
+    split; [exact HL|]. split; [exact HR|]. split; [exact Hdata|]. split.
+    - intros i Hi. destruct (Z.eq_dec i N) as [->|Hne].
+      + rewrite HE, HR. lia.
+      + destruct (HP i ltac:(lia)) as [Ho [Hsl [Hh [Hh1 _]]]].
+        assert (Hlen : Z.of_nat (length (slice rev0 i)) = zget hist i) by (rewrite Hsl, zseq_len; lia).
+        assert (Hfl := Hlen). unfold slice in Hfl. rewrite firstn_length, skipn_length in Hfl.
+        assert (H0 : zget (slice rev0 i) 0 = i * k) by (rewrite Hsl; rewrite zget_zseq by lia; lia).
+        rewrite slice_zget in H0 by lia.
+        replace (zget rev0 i + 0) with (N + 1 + (zget rev0 i - N - 1)) in H0 by lia.
+        rewrite Hdata in H0 by lia. nia.
+    - intros i Hi. destruct (HP i Hi) as [_ [_ [Hh _]]]. exact Hh.
+  Qed.
+
+  Definition Pinv (j : Z) (st : list Z * list float * list float) : Prop :=
+    let '(rev, low, high) := st in
+    length rev = length rev0 /\ Z.of_nat (length low) = N /\ Z.of_nat (length high) = N
+    /\ (forall p, 0 <= p < Z.of_nat (length rev0) ->
+          zget rev p = if (N + 1 <=? p) && (p <? N + 1 + Z.min (j * k) n) then zget wsort (p - N - 1)
+                       else zget rev0 p)
+    /\ (forall i, 0 <= i < j ->
+          nth (Z.to_nat i) low nan = fget x (zget wsort (i * k))
+          /\ nth (Z.to_nat i) high nan = fget x (zget wsort (Z.min ((i + 1) * k) n - 1))).
+
+  Lemma remap_step_inv j st : 0 <= j < N -> Pinv j st -> Pinv (j + 1) (remap_step x wsort st j).
+  Proof.
+    intros Hj HP. pose proof N_bounds as NB.
+    destruct pass_facts as [FL [FR [FD [FH _]]]].
+    destruct st as [[rev low] high]. destruct HP as [PL [PLo [PHi [PR PV]]]].
+    assert (Ha : zget rev j = N + 1 + j * k).
+    { rewrite PR by lia. replace ((N + 1 <=? j) && (j <? N + 1 + Z.min (j * k) n)) with false by lia.
+      rewrite FH by lia. nia. }
+    assert (Hb : zget rev (j + 1) = N + 1 + Z.min ((j + 1) * k) n).
+    { rewrite PR by lia.
+      replace ((N + 1 <=? j + 1) && (j + 1 <? N + 1 + Z.min (j * k) n)) with false by lia.
+      apply FH. lia. }
+    assert (Hjk : j * k < n) by nia.
+    set (cnt := Z.min ((j + 1) * k) n - j * k) in *.
+    assert (Hcnt : 1 <= cnt) by (unfold cnt; nia).
+    assert (Hcn : j * k + cnt <= n) by (unfold cnt; lia).
+    unfold remap_step.
+    replace (zget rev j =? zget rev (j + 1)) with false by (rewrite Ha, Hb; lia).
+    set (sl := slice rev j).
+    assert (Hsl_len : Z.of_nat (length sl) = cnt).
+    { unfold sl. rewrite slice_length; rewrite ?Ha, ?Hb, ?PL; unfold cnt; lia. }
+    assert (Hsl : forall t, 0 <= t < cnt -> zget sl t = j * k + t).
+    { intros t Ht. unfold sl. rewrite slice_zget by (rewrite ?Ha, ?Hb; lia). rewrite Ha.
+      rewrite PR by lia.
+      replace ((N + 1 <=? N + 1 + j * k + t) && (N + 1 + j * k + t <? N + 1 + Z.min (j * k) n)) with false by lia.
+      replace (N + 1 + j * k + t) with (N + 1 + (j * k + t)) by lia. apply FD. lia. }
+    set (w := map (zget wsort) sl).
+    assert (Hw_len : Z.of_nat (length w) = cnt) by (unfold w; rewrite map_length; exact Hsl_len).
+    assert (Hw : forall t, 0 <= t < cnt -> zget w t = zget wsort (j * k + t)).
+    { intros t Ht. unfold w. rewrite zget_map by lia. rewrite Hsl by lia. reflexivity. }
+    unfold Pinv. split; [rewrite write_length; exact PL|].
+    split; [unfold fset; rewrite zset_length; exact PLo|].
+    split; [unfold fset; rewrite zset_length; exact PHi|].
+    split.
+    - intros p Hp. rewrite Ha. rewrite zget_write by lia. rewrite Hw_len.
+      destruct ((N + 1 + j * k <=? p) && (p <? N + 1 + j * k + cnt)) eqn:E1.
+      + rewrite Hw by lia.
+        replace ((N + 1 <=? p) && (p <? N + 1 + Z.min ((j + 1) * k) n)) with true by (unfold cnt in *; lia).
+        f_equal. lia.
+      + rewrite PR by lia.
+        destruct ((N + 1 <=? p) && (p <? N + 1 + Z.min (j * k) n)) eqn:E2.
+        * replace ((N + 1 <=? p) && (p <? N + 1 + Z.min ((j + 1) * k) n)) with true by (unfold cnt in *; nia).
+          reflexivity.
+        * replace ((N + 1 <=? p) && (p <? N + 1 + Z.min ((j + 1) * k) n)) with false by (unfold cnt in *; lia).
+          reflexivity.
+    - intros i Hi. unfold fset. rewrite !nth_zset by lia. rewrite PLo, PHi.
+      destruct (j =? i) eqn:Eji.
+      + assert (i = j) by lia. subst i. replace (j <? N) with true by lia. cbn [andb].
+        split; f_equal.
+        * rewrite hd_nth. change (nth 0 w 0) with (zget w 0). rewrite Hw by lia. f_equal. lia.
+        * rewrite last_nth. replace (nth (length w - 1) w 0) with (zget w (cnt - 1))
+            by (unfold zget; f_equal; lia).
+          rewrite Hw by lia. f_equal. unfold cnt. lia.
+      + cbn [andb]. apply PV. lia.
+  Qed.
+
+  Definition start (M t : Z) : Z := if t <? M then t * k else n.
+
+  Definition Final (M : Z) (h r : list Z) (lo hi : list float) : Prop :=
+    Z.of_nat (length h) = M /\ Z.of_nat (length lo) = M /\ Z.of_nat (length hi) = M
+    /\ Z.of_nat (length r) = M + 1 + n
+    /\ (forall t, 0 <= t <= M -> zget r t = M + 1 + start M t)
+    /\ (forall p, 0 <= p < n -> zget r (M + 1 + p) = zget wsort p)
+    /\ (forall i, 0 <= i < M ->
+          zget h i = start M (i + 1) - start M i
+          /\ nth (Z.to_nat i) lo nan = fget x (zget wsort (start M i))
+          /\ nth (Z.to_nat i) hi nan = fget x (zget wsort (start M (i + 1) - 1))).
+
+  Lemma final_unmerged rev low high : Pinv N (rev, low, high) -> Final N hist rev low high.
+  Proof.
+    intro HP. pose proof N_bounds as NB.
+    destruct pass_facts as [FL [FR [FD [FH FHi]]]].
+    destruct HP as [PL [PLo [PHi [PR PV]]]].
+    assert (Hmin : Z.min (N * k) n = n) by lia.
+    unfold Final. split; [exact FL|]. split; [exact PLo|]. split; [exact PHi|].
+    split; [rewrite PL; lia|]. split; [|split].
+    - intros t Ht. rewrite PR by lia.
+      replace ((N + 1 <=? t) && (t <? N + 1 + Z.min (N * k) n)) with false by lia.
+      rewrite FH by lia. unfold start. destruct (t <? N) eqn:E; [nia|].
+      assert (t = N) by lia. subst t. lia.
+    - intros p Hp. rewrite PR by lia.
+      replace ((N + 1 <=? N + 1 + p) && (N + 1 + p <? N + 1 + Z.min (N * k) n)) with true by lia.
+      f_equal. lia.
+    - intros i Hi. rewrite FHi by lia. destruct (PV i Hi) as [P1 P2]. rewrite P1, P2.
+      unfold start. replace (i <? N) with true by lia.
+      destruct (i + 1 <? N) eqn:E.
+      + replace (Z.min n ((i + 1) * k)) with ((i + 1) * k) by nia.
+        replace (Z.min ((i + 1) * k) n) with ((i + 1) * k) by nia. auto.
+      + assert (i + 1 = N) by lia.
+        replace (Z.min n ((i + 1) * k)) with n by nia.
+        replace (Z.min ((i + 1) * k) n) with n by nia. auto.
+  Qed.
+
+  Lemma final_merged rev low high : 2 <= N -> n < N * k ->
+    Final N hist rev low high ->
+    let '(h', r', lo', hi') := merge_last hist rev low high in Final (N - 1) h' r' lo' hi'.
+  Proof.
+    intros H2 Hlt [FL [FLo [FHi [FR [FHd [FD FB]]]]]]. pose proof N_bounds as NB.
+    unfold merge_last.
+    replace (length hist <? 2)%nat with false by (symmetry; apply Nat.ltb_ge; lia).
+    replace (Z.of_nat (length hist)) with N by lia.
+    assert (S1 : forall t, 0 <= t < N - 1 -> start (N - 1) t = t * k) by (intros t Ht; unfold start; replace (t <? N - 1) with true by lia; reflexivity).
+    assert (S2 : start (N - 1) (N - 1) = n) by (unfold start; replace (N - 1 <? N - 1) with false by lia; reflexivity).
+    assert (S3 : forall t, 0 <= t < N -> start N t = t * k) by (intros t Ht; unfold start; replace (t <? N) with true by lia; reflexivity).
+    assert (S4 : start N N = n) by (unfold start; replace (N <? N) with false by lia; reflexivity).
+    unfold Final.
+    split; [rewrite zset_length, firstn_length; lia|].
+    split; [rewrite firstn_length; lia|].
+    split; [unfold fset; rewrite zset_length, firstn_length; lia|].
+    split; [rewrite app_length, map_length, app_length, firstn_length, skipn_length; cbn [length]; lia|].
+    assert (Lfirst : Z.of_nat (length (map (fun v => v - 1) (firstn (length hist - 1) rev ++ [zget rev N]))) = N).
+    { rewrite map_length, app_length, firstn_length. cbn [length]. lia. }
+    split; [|split].
+    - intros t Ht. rewrite zget_app by lia. rewrite Lfirst. replace (t <? N) with true by lia.
+      rewrite zget_map by (rewrite app_length, firstn_length; cbn [length]; lia).
+      rewrite zget_app by lia. rewrite firstn_length.
+      destruct (t <? Z.of_nat (Nat.min (length hist - 1) (length rev))) eqn:E.
+      + rewrite zget_firstn by lia. rewrite FHd by lia. rewrite S3, S1 by lia. lia.
+      + assert (t = N - 1) by lia. subst t.
+        replace (N - 1 - Z.of_nat (Nat.min (length hist - 1) (length rev))) with 0 by lia.
+        change (zget [zget rev N] 0) with (zget rev N). rewrite FHd by lia. rewrite S4, S2. lia.
+    - intros p Hp. rewrite zget_app by lia. rewrite Lfirst. replace (N - 1 + 1 + p <? N) with false by lia.
+      rewrite zget_skipn by lia. rewrite <- (FD p Hp). f_equal. lia.
+    - intros i Hi.
+      destruct (FB i ltac:(lia)) as [B1 [B2 B3]].
+      rewrite zget_zset by lia. unfold fset. rewrite nth_zset by lia. rewrite !firstn_length.
+      rewrite (nth_firstn' low) by lia.
+      destruct (N - 2 =? i) eqn:E.
+      + assert (i = N - 2) by lia. subst i.
+        replace (N - 2 <? Z.of_nat (Nat.min (length hist - 1) (length hist))) with true by lia.
+        replace (N - 2 <? Z.of_nat (Nat.min (length hist - 1) (length high))) with true by lia.
+        cbn [andb].
+        destruct (FB (N - 1) ltac:(lia)) as [C1 [_ C3]].
+        replace (N - 2 + 1) with (N - 1) in * by lia. replace (N - 1 + 1) with N in * by lia.
+        split; [|split].
+        * replace (zget hist (N - 2)) with (start N (N - 1) - start N (N - 2)) by (rewrite <- B1; f_equal; lia).
+          rewrite C1. rewrite S2, S4, !S3, S1 by lia. lia.
+        * rewrite B2. rewrite S3, S1 by lia. reflexivity.
+        * replace (length hist - 1)%nat with (Z.to_nat (N - 1)) by lia. rewrite C3. rewrite S4, S2. reflexivity.
+      + cbn [andb]. rewrite zget_firstn by lia. rewrite (nth_firstn' high) by lia.
+        rewrite B1, B2, B3. rewrite !S3, !S1 by lia. auto.
+  Qed.
+
+  (* the pieces of the chunk list, for a list of M chunks whose first M-1 hold k elements *)
+  Lemma chunk_pieces merge M : let ch := chunks (length wsort) (Z.to_nat k) merge wsort in
+    Z.of_nat (length ch) = M -> 1 <= M ->
+    forall i, 0 <= i < M ->
+      nth (Z.to_nat i) ch [] = firstn (Z.to_nat (start M (i + 1) - start M i)) (skipn (Z.to_nat (start M i)) wsort)
+      /\ 1 <= start M (i + 1) - start M i /\ start M i + (start M (i + 1) - start M i) <= n /\ 0 <= start M i.
+  Proof.
+    intros ch HM H1 i Hi.
+    assert (Hkn : (1 <= Z.to_nat k)%nat) by lia.
+    assert (Hfuel : (length wsort <= length wsort)%nat) by lia.
+    assert (Hcat : concat ch = wsort) by (apply chunks_concat; assumption).
+    assert (Hpre : forall j, 0 <= j < M -> Z.of_nat (length (concat (firstn (Z.to_nat j) ch))) = j * k).
+    { intros j Hj. unfold ch. rewrite chunks_prefix by (try assumption; fold ch; lia). lia. }
+    assert (Hlen : Z.of_nat (length (nth (Z.to_nat i) ch [])) = start M (i + 1) - start M i).
+    { unfold start. replace (i <? M) with true by lia. destruct (i + 1 <? M) eqn:E.
+      - pose proof (chunks_sizes (length wsort) (Z.to_nat k) merge wsort Hkn Hfuel (Z.to_nat i) ltac:(fold ch; lia)) as Sz.
+        cbv zeta in Sz. fold ch in Sz.
+        replace (S (Z.to_nat i) <? length ch)%nat with true in Sz by (symmetry; apply Nat.ltb_lt; lia).
+        rewrite Sz. lia.
+      - assert (i = M - 1) by lia. subst i.
+        assert (Hne : ch <> []) by (intro E0; rewrite E0 in HM; cbn [length] in HM; lia).
+        pose proof (concat_length_last ch Hne) as CL. rewrite Hcat in CL.
+        replace (length ch - 1)%nat with (Z.to_nat (M - 1)) in CL by lia.
+        specialize (Hpre (M - 1) ltac:(lia)). unfold n. lia. }
+    assert (Hs : start M i = i * k) by (unfold start; replace (i <? M) with true by lia; reflexivity).
+    split.
+    - rewrite (concat_piece ch (Z.to_nat i)) at 1 by lia. rewrite Hcat. f_equal; [lia|]. f_equal.
+      specialize (Hpre i Hi). lia.
+    - assert (Hpos : 1 <= start M (i + 1) - start M i).
+      { rewrite <- Hlen.
+        assert (Hin : In (nth (Z.to_nat i) ch []) ch) by (apply nth_In; lia).
+        apply (chunks_nonempty _ _ _ _ _ Hkn) in Hin. destruct (nth (Z.to_nat i) ch []); [contradiction | cbn [length]; lia]. }
+      split; [exact Hpos|]. split; [|nia].
+      unfold start in *. replace (i <? M) with true in * by lia. destruct (i + 1 <? M) eqn:E; [|lia].
+      specialize (Hpre (i + 1) ltac:(lia)).
+      assert (length (concat (firstn (Z.to_nat (i + 1)) ch)) <= length (concat ch))%nat.
+      { rewrite <- (firstn_skipn (Z.to_nat (i + 1)) ch) at 2. rewrite concat_app, app_length. lia. }
+      rewrite Hcat in H. unfold n. lia.
+  Qed.
+
+  (* from the final layout to the statement about slices *)
+  Lemma final_slices merge M h r lo hi :
+    let ch := chunks (length wsort) (Z.to_nat k) merge wsort in
+    Z.of_nat (length ch) = M -> 1 <= M -> Final M h r lo hi ->
+    length h = length ch /\ length lo = length ch /\ length hi = length ch
+    /\ skipn (S (length h)) r = wsort
+    /\ forall i, (i < length ch)%nat ->
+         let b := nth i ch [] in
+         b <> []
+         /\ 0 <= zget r (Z.of_nat i) /\ 0 <= zget r (Z.of_nat i + 1)
+         /\ zget r (Z.of_nat i) <> zget r (Z.of_nat i + 1)
+         /\ slice r (Z.of_nat i) = b
+         /\ zget h (Z.of_nat i) = Z.of_nat (length b)
+         /\ nth i lo nan = fget x (hd 0 b)
+         /\ nth i hi nan = fget x (last b 0).
+  Proof.
+    intros ch HM H1 [FL [FLo [FHi [FR [FHd [FD FB]]]]]].
+    split; [lia|]. split; [lia|]. split; [lia|]. split.
+    - apply (nth_ext _ _ 0 0).
+      + rewrite skipn_length. unfold n in FR. lia.
+      + intros t Ht. rewrite skipn_length in Ht. rewrite nth_skipn.
+        specialize (FD (Z.of_nat t) ltac:(unfold n in *; lia)). unfold zget in FD.
+        rewrite Nat2Z.id in FD. rewrite <- FD. f_equal. lia.
+    - intros i Hi b. set (zi := Z.of_nat i).
+      destruct (chunk_pieces merge M HM H1 zi ltac:(lia)) as [Hb [Hc [Hcn Hs0]]]. fold ch in Hb.
+      replace (Z.to_nat zi) with i in Hb by lia. fold b in Hb.
+      set (s := start M zi) in *. set (c := start M (zi + 1) - s) in *.
+      assert (Hblen : Z.of_nat (length b) = c).
+      { rewrite Hb, firstn_length, skipn_length. unfold n in Hcn. lia. }
+      assert (Hbn : forall t, 0 <= t < c -> zget b t = zget wsort (s + t)).
+      { intros t Ht. unfold zget. rewrite Hb. rewrite nth_firstn' by lia. rewrite nth_skipn. f_equal. lia. }
+      assert (R1 : zget r zi = M + 1 + s) by (apply FHd; lia).
+      assert (R2 : zget r (zi + 1) = M + 1 + s + c) by (rewrite FHd by lia; unfold c; lia).
+      split; [intro E0; rewrite E0 in Hblen; cbn [length] in Hblen; lia|].
+      split; [lia|]. split; [lia|]. split; [lia|].
+      destruct (FB zi ltac:(lia)) as [B1 [B2 B3]].
+      split; [|split; [|split]].
+      + apply (nth_ext _ _ 0 0).
+        * assert (Z.of_nat (length (slice r zi)) = c) by (rewrite slice_length; lia). lia.
+        * intros t Ht.
+          assert (Ht' : 0 <= Z.of_nat t < c).
+          { assert (Z.of_nat (length (slice r zi)) = c) by (rewrite slice_length; lia). lia. }
+          change (nth t (slice r zi) 0) with (nth (Z.to_nat (Z.of_nat t)) (slice r zi) 0) || idtac.
+          replace t with (Z.to_nat (Z.of_nat t)) by lia.
+          change (zget (slice r zi) (Z.of_nat t) = zget b (Z.of_nat t)).
+          rewrite slice_zget by lia. rewrite R1. rewrite Hbn by lia.
+          replace (M + 1 + s + Z.of_nat t) with (M + 1 + (s + Z.of_nat t)) by lia. apply FD. lia.
+      + rewrite B1. fold s. fold c. lia.
+      + replace i with (Z.to_nat zi) at 1 by lia. rewrite B2. f_equal. fold s.
+        rewrite hd_nth. change (nth 0 b 0) with (zget b 0). rewrite Hbn by lia. f_equal. lia.
+      + replace i with (Z.to_nat zi) at 1 by lia. rewrite B3. f_equal. fold s.
+        rewrite last_nth. replace (nth (length b - 1) b 0) with (zget b (c - 1)) by (unfold zget; f_equal; lia).
+        rewrite Hbn by lia. f_equal. unfold c. lia.
+  Qed.
+End NumModel.
+
+(* ------------------------------------------------------------------ the theorem *)
+Lemma chunk_count_Z wsort k merge : 1 <= k -> wsort <> [] ->
+  let n := Z.of_nat (length wsort) in
+  Z.of_nat (length (chunks (length wsort) (Z.to_nat k) merge wsort)) =
+  if merge && negb (n mod k =? 0) && (k <? n) then n / k else (n - 1) / k + 1.
+Proof.
+  intros Hk Hne n.
+  rewrite chunks_count by (try assumption; lia).
+  assert (Hn : 1 <= n) by (unfold n; destruct wsort; [contradiction | cbn [length]; lia]).
+  assert (E1 : ((length wsort mod Z.to_nat k =? 0)%nat = (n mod k =? 0))).
+  { unfold n. destruct (Z.of_nat (length wsort) mod k =? 0) eqn:E.
+    - apply Nat.eqb_eq. apply Nat2Z.inj. rewrite Nat2Z.inj_mod. rewrite Z2Nat.id by lia. lia.
+    - apply Nat.eqb_neq. intro H. apply (f_equal Z.of_nat) in H. rewrite Nat2Z.inj_mod in H.
+      rewrite Z2Nat.id in H by lia. lia. }
+  assert (E2 : ((Z.to_nat k <? length wsort)%nat = (k <? n))).
+  { unfold n. destruct (k <? Z.of_nat (length wsort)) eqn:E; [apply Nat.ltb_lt | apply Nat.ltb_ge]; lia. }
+  rewrite E1, E2.
+  destruct (merge && negb (n mod k =? 0) && (k <? n)).
+  - rewrite Nat2Z.inj_div. rewrite Z2Nat.id by lia. reflexivity.
+  - rewrite Nat2Z.inj_add, Nat2Z.inj_div, Nat2Z.inj_sub by lia. rewrite Z2Nat.id by lia. reflexivity.
+Qed.
+
+Theorem hist_by_num_spec : forall (x : list float) (wsort : list Z) (k : Z) (merge : bool) hist rev low high,
+  1 <= k -> wsort <> [] ->
+  hist_by_num x wsort k merge = (hist, rev, low, high) ->
+  let ch := chunks (length wsort) (Z.to_nat k) merge wsort in
+  length hist = length ch /\ length low = length ch /\ length high = length ch
+  /\ skipn (S (length hist)) rev = wsort
+  /\ forall i, (i < length ch)%nat ->
+       let b := nth i ch [] in
+       b <> []
+       /\ 0 <= zget rev (Z.of_nat i) /\ 0 <= zget rev (Z.of_nat i + 1)
+       /\ zget rev (Z.of_nat i) <> zget rev (Z.of_nat i + 1)
+       /\ slice rev (Z.of_nat i) = b
+       /\ zget hist (Z.of_nat i) = Z.of_nat (length b)
+       /\ nth i low nan = fget x (hd 0 b)
+       /\ nth i high nan = fget x (last b 0).
+Proof.
+  intros x wsort k merge hist rev low high Hk Hne H.
+  set (n := Z.of_nat (length wsort)).
+  assert (Hn : 1 <= n) by (unfold n; destruct wsort; [contradiction | cbn [length]; lia]).
+  set (N := (n - 1) / k + 1).
+  unfold hist_by_num in H. fold n in H. fold N in H.
+  destruct (chist (fun i => i / k) N (zseq 0 (length wsort))) as [h0 rev0] eqn:Hch.
+  pose proof (N_bounds wsort k Hk Hn) as NB. fold n in NB. fold N in NB.
+  destruct (pass_facts wsort k Hk Hn h0 rev0 Hch) as [FL [FR [FD [FH FHi]]]]. fold n in FL, FR, FD, FH, FHi. fold N in FL, FR, FD, FH, FHi.
+  set (z := repeat 0%float (Z.to_nat N)) in H.
+  assert (Hinit : Pinv x wsort k rev0 0 (rev0, z, z)).
+  { unfold Pinv. fold n. fold N. split; [reflexivity|].
+    split; [unfold z; rewrite repeat_length; lia|]. split; [unfold z; rewrite repeat_length; lia|].
+    split.
+    - intros p Hp. replace ((N + 1 <=? p) && (p <? N + 1 + Z.min (0 * k) n)) with false by lia. reflexivity.
+    - intros i Hi. lia. }
+  pose proof (fold_zseq_inv (Pinv x wsort k rev0) (remap_step x wsort) (Z.to_nat N) 0 (rev0, z, z) Hinit) as HF.
+  assert (Hstep : forall j st', 0 <= j < 0 + Z.of_nat (Z.to_nat N) ->
+            Pinv x wsort k rev0 j st' -> Pinv x wsort k rev0 (j + 1) (remap_step x wsort st' j)).
+  { intros j st' Hj HP. apply (remap_step_inv x wsort k Hk Hn h0 rev0 Hch). - fold n. fold N. lia. - exact HP. }
+  specialize (HF Hstep). replace (0 + Z.of_nat (Z.to_nat N)) with N in HF by lia.
+  destruct (fold_left (remap_step x wsort) (zseq 0 (Z.to_nat N)) (rev0, z, z)) as [[rev1 low1] high1].
+  pose proof (final_unmerged x wsort k Hk Hn h0 rev0 Hch rev1 low1 high1 HF) as HFin. fold n in HFin. fold N in HFin.
+  pose proof (chunk_count_Z wsort k merge Hk Hne) as HC. cbv zeta in HC. fold n in HC.
+  assert (Hlast : last h0 0 = n - (N - 1) * k).
+  { rewrite last_nth. replace (nth (length h0 - 1) h0 0) with (zget h0 (N - 1)) by (unfold zget; f_equal; lia).
+    rewrite FHi by lia. replace (N - 1 + 1) with N by lia. lia. }
+  rewrite Hlast in H.
+  destruct (negb (n - (N - 1) * k =? k) && merge) eqn:Ec.
+  - apply andb_true_iff in Ec as [Ec1 Ec2]. subst merge. apply negb_true_iff in Ec1. apply Z.eqb_neq in Ec1.
+    assert (Hlt : n < N * k) by lia.
+    destruct (Z_lt_dec N 2) as [H1|H2].
+    + (* a single bin: nothing to merge *)
+      unfold merge_last in H. replace (length h0 <? 2)%nat with true in H by (symmetry; apply Nat.ltb_lt; lia).
+      injection H as <- <- <- <-.
+      apply (final_slices x wsort k Hk Hn true N); [|lia|exact HFin].
+      rewrite HC. replace (k <? n) with false by nia. rewrite andb_false_r. reflexivity.
+    + pose proof (final_merged x wsort k Hk Hn h0 rev0 Hch rev1 low1 high1 ltac:(fold n; fold N; lia) ltac:(fold n; fold N; lia) HFin) as HM.
+      rewrite H in HM. fold n in HM. fold N in HM.
+      apply (final_slices x wsort k Hk Hn true (N - 1)); [|lia|exact HM].
+      rewrite HC. replace (k <? n) with true by nia.
+      replace (n mod k =? 0) with false by (symmetry; apply Z.eqb_neq; nia).
+      cbn [negb andb]. nia.
+  - injection H as <- <- <- <-.
+    apply (final_slices x wsort k Hk Hn merge N); [|lia|exact HFin].
+    rewrite HC.
+    destruct merge; cbn [andb]; [|reflexivity].
+    rewrite andb_true_r in Ec. apply negb_false_iff in Ec. apply Z.eqb_eq in Ec.
+    replace (n mod k =? 0) with true by (symmetry; apply Z.eqb_eq; nia). reflexivity.
+Qed.
